@@ -336,7 +336,7 @@ B('C11', 'definition head not checked', ITEMS,
 B('C11', 'definition arguments may be non-variables', ITEMS,
   '            if not all(v.is_var() for v in args):\n                raise ItemException("Definition %s: arguments on lhs must be variables" % self.name)\n', '', 'C11.D1', 'D1c')
 B('C11', 'definition arguments may repeat', ITEMS,
-  '            if len(lhs_vars) != len(args):\n                raise ItemException("Definition %s: variables on lhs must be distinct" % self.name)\n', '', 'C11.D1', 'D1d')
+  '            if len(set(v.name for v in args)) != len(args):\n                raise ItemException("Definition %s: variables on lhs must be distinct" % self.name)\n', '', 'C11.D1', 'D1d')
 B('C11', 'definition may mention itself', ITEMS,
   'if any(c.name == self.name and not types_disjoint(c.T, self.type)\n                   for c in self.prop.rhs.get_consts()):',
   'if False and any(c.name == self.name and not types_disjoint(c.T, self.type)\n                   for c in self.prop.rhs.get_consts()):', 'C11.D1', 'D1g')
@@ -355,9 +355,8 @@ B('C11', 'header display drops depth', ITEMS,
   "            'ty': 'header',\n            'depth': self.depth,\n            'name': self.name\n        }\n\n    def parse_edit", "            'ty': 'header',\n            'name': self.name\n        }\n\n    def parse_edit", 'C11.D2', 'Header :: editor')
 B('C11', 'item kind missing from item_table', ITEMS, "    'def.pred': Inductive,\n", '', 'C11.D3', 'Inductive')
 N('C11', 'distinctness test as separate statements', ITEMS,
-  '            if len(lhs_vars) != len(args):\n                raise ItemException("Definition %s: variables on lhs must be distinct" % self.name)\n',
-  '            distinct = len(lhs_vars) == len(args)\n            if not distinct:\n                raise ItemException("Definition %s: variables on lhs must be distinct" % self.name)\n' if False else
-  '            if not (len(lhs_vars) == len(args)):\n                raise ItemException("Definition %s: variables on lhs must be distinct" % self.name)\n')
+  '            if len(set(v.name for v in args)) != len(args):\n                raise ItemException("Definition %s: variables on lhs must be distinct" % self.name)\n',
+  '            if not (len(set(v.name for v in args)) == len(args)):\n                raise ItemException("Definition %s: variables on lhs must be distinct" % self.name)\n')
 
 # ------------------------------------------------------------------------------------------- C12
 BASIC = 'logic/basic.py'
@@ -831,3 +830,59 @@ B('C02', 'blocks walked without comparing identifier and position', THEORY,
 B('C02', 'block helper skips items that carry a sequent', THEORY,
   "            self._check_proof_item(prf, s, rpt, no_gaps, compute_only, check_level)\n\n    def check_proof(self, prf, rpt=None",
   "            if s.th is None:\n                self._check_proof_item(prf, s, rpt, no_gaps, compute_only, check_level)\n\n    def check_proof(self, prf, rpt=None", 'C02.P7', 'all-items')
+# ------------------------------------------------------------------------------------------- round 4
+B('C03', 'subst_bound does not count the binder it passes', TERM,
+  "                body_t = rec(t.body, lev+1)\n                if body_t._id == t.body._id:\n                    return t\n                else:\n                    return Abs(t.var_name, t.var_T, body_t)",
+  "                body_t = rec(t.body, lev)\n                if body_t._id == t.body._id:\n                    return t\n                else:\n                    return Abs(t.var_name, t.var_T, body_t)", 'C03.I7', '')
+B('C12', 'cache reused when the file is not newer', BASIC,
+  "if 'timestamp' in cache and timestamp == cache['timestamp']:", "if 'timestamp' in cache and timestamp <= cache['timestamp']:", 'C12.L9', 'reuse-test')
+N('C12', 'cache validity test written with the operands exchanged', BASIC,
+  "if 'timestamp' in cache and timestamp == cache['timestamp']:", "if 'timestamp' in cache and cache['timestamp'] == timestamp:")
+B('C20', 'negation of a conjunction keeps the conjunction', IEXPR,
+  "def neg(e):\n    return Op(\"~\", e)", "def neg(e):\n    if isinstance(e, Op) and e.op in (\"&\", \"|\"):\n        return Op(e.op, *(neg(arg) for arg in e.args))\n    return Op(\"~\", e)", 'C20.P5', 'neg')
+B('C20', 'negation returns its argument', IEXPR,
+  "def neg(e):\n    return Op(\"~\", e)", "def neg(e):\n    return e", 'C20.P5', 'neg')
+N('C20', 'negation pushed inwards with the dual connective', IEXPR,
+  "def neg(e):\n    return Op(\"~\", e)", "def neg(e):\n    if isinstance(e, Op) and e.op in (\"&\", \"|\"):\n        dual = \"|\" if e.op == \"&\" else \"&\"\n        return Op(dual, *(neg(arg) for arg in e.args))\n    return Op(\"~\", e)")
+B('C13', 'deletion renumbers ids of the same depth only', 'kernel/proof.py',
+  "        if len(self.id) >= k and self.id[:k-1] == id_remove.id[:k-1] and self.id[k-1] > id_remove.id[k-1]:",
+  "        if len(self.id) == k and self.id[:k-1] == id_remove.id[:k-1] and self.id[k-1] > id_remove.id[k-1]:", 'C13.A10', 'ItemID.decr_id')
+B('C14', 'insertion drops the components behind the renumbered one', 'kernel/proof.py',
+  "            return ItemID(self.id[:k-1] + (self.id[k-1] + n,) + self.id[k:])", "            return ItemID(self.id[:k-1] + (self.id[k-1] + n,))", 'C14.S6', 'ItemID.incr_id_after')
+N('C14', 'length of the reference id not named', 'kernel/proof.py',
+  "        k = len(id_remove.id)\n        if len(self.id) >= k and", "        k = len(id_remove.id)\n        if len(self.id) >= len(id_remove.id) and")
+B('C15', 'repeated clauses removed from the working list', SATF,
+  "    cnf = [list(dict.fromkeys(clause)) for clause in cnf]\n", "    cnf = [list(clause) for clause in dict.fromkeys(tuple(dict.fromkeys(clause)) for clause in cnf)]\n", 'C15.X8', 'positional-image')
+B('C15', 'empty clauses filtered from the working list', SATF,
+  "    cnf = [list(dict.fromkeys(clause)) for clause in cnf]\n", "    cnf = [list(dict.fromkeys(clause)) for clause in cnf if clause]\n", 'C15.X8', 'positional-image')
+B('C15', 'satisfied clauses removed during propagation', SATF,
+  "                        if val == assigns[name][0]:\n                            satisfied = True\n                            break",
+  "                        if val == assigns[name][0]:\n                            satisfied = True\n                            if level == 0 and clause_id == len(cnf) - 1:\n                                cnf.pop()\n                            break", 'C15.X8', 'append-only')
+B('C16', 'tableau checked for basic variables only', 'prover/simplex.py',
+  "            # if assertion.var_name in self.basic:\n            res = self.check()\n            if res == UNSAT:\n                raise UNSATException(\"variable %s is wrong.\" % str(self.wrong_var))",
+  "            if assertion.var_name in self.basic:\n                res = self.check()\n                if res == UNSAT:\n                    raise UNSATException(\"variable %s is wrong.\" % str(self.wrong_var))", 'C16.O4', 'Simplex.handle_assertion')
+B('C16', 'tableau checked once after all assertions', 'prover/simplex.py',
+  "            # if assertion.var_name in self.basic:\n            res = self.check()\n            if res == UNSAT:\n                raise UNSATException(\"variable %s is wrong.\" % str(self.wrong_var))",
+  "            if assertion is not self.atom[-1]:\n                continue\n            res = self.check()\n            if res == UNSAT:\n                raise UNSATException(\"variable %s is wrong.\" % str(self.wrong_var))", 'C16.O4', 'Simplex.handle_assertion')
+N('C16', 'verdict of check tested without a local', 'prover/simplex.py',
+  "            res = self.check()\n            if res == UNSAT:\n                raise UNSATException(\"variable %s is wrong.\" % str(self.wrong_var))",
+  "            if self.check() == UNSAT:\n                raise UNSATException(\"variable %s is wrong.\" % str(self.wrong_var))")
+B('C10', 'clean-up after normalising the left summand removes a zero on the right', 'data/integer.py',
+  "                    try_conv(rewr_conv('int_add_0_left'))) # 0 +b = 0", "                    try_conv(rewr_conv('int_add_0_right'))) # 0 +b = 0", 'C10.V8', 'cleanup(int_add_0_right')
+B('C10', 'clean-up after evaluating the coefficient removes a zero factor on the right', 'data/integer.py',
+  "                        arg1_conv(int_eval_conv()),\n                        try_conv(rewr_conv('int_mul_0_l')))", "                        arg1_conv(int_eval_conv()),\n                        try_conv(rewr_conv('int_mul_0_r')))", 'C10.V8', 'cleanup(int_mul_0_r')
+B('C19', 'sum of decaying terms takes the greater asymptote', 'integral/limits.py',
+  "    if cmp == GREATER:\n        return b\n    elif cmp == LESS or cmp == EQUAL:\n        return a", "    if cmp == LESS:\n        return b\n    elif cmp == GREATER or cmp == EQUAL:\n        return a", 'C19.E6', 'asymp_add_inv')
+B('C19', 'sum of growing terms takes the smaller asymptote', 'integral/limits.py',
+  "    if cmp == LESS:\n        return b\n    elif cmp == GREATER or cmp == EQUAL:\n        return a", "    if cmp == LESS:\n        return a\n    elif cmp == GREATER or cmp == EQUAL:\n        return b", 'C19.E6', 'asymp_add ')
+N('C19', 'equal asymptotes return the second argument', 'integral/limits.py',
+  "    if cmp == GREATER:\n        return b\n    elif cmp == LESS or cmp == EQUAL:\n        return a", "    if cmp == GREATER or cmp == EQUAL:\n        return b\n    elif cmp == LESS:\n        return a")
+B('C04', 'swap_disj_to_front decides the last literal by matching', VM,
+  "            if i == 0 and idx == len(l_args) - 1:\n                # the disjunct to be moved is the last one: nothing follows it\n                eq_pt = eq_pt.on_rhs(rewr_conv('disj_comm'))\n            else:\n                eq_pt = eq_pt.on_rhs(rewr_conv('disj_swap_eq'))",
+  "            try:\n                eq_pt = eq_pt.on_rhs(rewr_conv('disj_swap_eq'))\n            except ConvException:\n                eq_pt = eq_pt.on_rhs(rewr_conv('disj_comm'))", 'C04.M12', 'swap_disj_to_front')
+B('C18', 'prod_simplify compares the remaining factors as sets', VM,
+  "        if lhs_c == rhs_c and lhs_tms == rhs_tms:\n            return Thm(goal)", "        if lhs_c == rhs_c and set(lhs_tms) == set(rhs_tms):\n            return Thm(goal)", 'C18.R14', '')
+B('C11', 'extra variables test is a proper-superset test', ITEMS,
+  "            rhs_vars = set(self.prop.rhs.get_vars())\n            if not rhs_vars.issubset(lhs_vars):", "            rhs_vars = set(self.prop.rhs.get_vars())\n            if rhs_vars > lhs_vars:", 'C11.D7', '')
+B('C01', 'blocks walked without comparing identifier and position (kernel view)', THEORY,
+  "            if s.id.id != prefix + (i,):\n                raise CheckProofException(\"id %s does not match position in proof\" % s.id)\n", "", 'C01.K15', 'item-at-its-position')
